@@ -359,6 +359,7 @@ def snapshot(w):
             "owner": w.servers.index(ch.server), "nreq": len(ch.requests), "la": ch.last_activity,
             "wc": bool(ch.will_close), "cwf": bool(ch.close_when_flushed), "pend": ch.total_outbufs_len,
             "rx": len(k.rx), "gone": k.gone, "writable": k.write_ready(), "room": k.room, "reading": k.reading,
+            "sent": k.sent, "recvd": sum(1 for op, n in k.log if op == "recv" and n),
         }
     return {
         "now": w.clock.now, "len": len(w.map), "chans": chans,
@@ -383,7 +384,18 @@ def monitor(cfg, obs):
     out = []
     L = cfg.listeners
     expired_since = {}   # fd -> time at which it was first seen inactive and expired, continuously since
+    true_la = {}         # fd -> time of the last accept / receive of data / send of data / end of service()
     for step, (ev, b, a) in enumerate(obs):
+        # last_activity is the time of the last activity seen on the wire (or end of service)
+        for fd, c in a["chans"].items():
+            cb = b["chans"].get(fd)
+            if cb is None:
+                true_la[fd] = a["now"]
+            elif c["sent"] > cb["sent"] or c["recvd"] > cb["recvd"] or (ev[0] == "app" and ev[1] == fd and cb["nreq"] > 0):
+                true_la[fd] = a["now"]
+            if c["la"] != true_la.get(fd):
+                out.append(("last-activity", "step %d (%s): channel %d last_activity=%d, last receive/send/service-end at %s" % (
+                    step, ev[0], fd, c["la"], true_la.get(fd)), None))
         # limit
         if a["len"] > bound(cfg):
             out.append(("limit", "step %d: %d descriptors in the map, bound %d" % (step, a["len"], bound(cfg)), None))
@@ -415,6 +427,31 @@ def monitor(cfg, obs):
                 if a["listeners"][i]["ovf"] != at_limit:
                     out.append(("overflow-flag", "step %d: listener %d in_connection_overflow=%s with %d descriptors, limit %d" % (
                         step, i, a["listeners"][i]["ovf"], b["len"], cfg.limit), None))
+            # maintenance runs in every poll turn at a time >= next_channel_cleanup, and only then;
+            # the turn in which it runs closes every idle, expired connection whose socket is writable
+            for i, l in enumerate(b["listeners"]):
+                due = b["now"] >= l["ncc"]
+                want = b["now"] + cfg.interval if due else l["ncc"]
+                if a["listeners"][i]["ncc"] != want:
+                    out.append(("maintenance-due", "step %d: poll turn at %d, listener %d next_channel_cleanup %d -> %d, expected %d (cleanup_interval %d)" % (
+                        step, b["now"], i, l["ncc"], a["listeners"][i]["ncc"], want, cfg.interval), None))
+                if due:
+                    for fd, c in b["chans"].items():
+                        idle = (c["owner"] == i and c["nreq"] == 0 and c["rx"] == 0 and c["la"] + cfg.timeout < b["now"]
+                                and (c["pend"] == 0 or (not c["reading"] and c["room"] <= 0)))
+                        if idle and c["writable"] and fd in a["chans"]:
+                            out.append(("due-poll", "step %d: maintenance due at %d (next_channel_cleanup %d), channel %d idle since %d (timeout %d), socket writable, still open" % (
+                                step, b["now"], l["ncc"], fd, c["la"], cfg.timeout), None))
+            # no close without a cause: peer gone, close_when_flushed / will_close set before
+            # the turn, or idle longer than channel_timeout with maintenance due in this turn
+            for fd, c in b["chans"].items():
+                if fd in a["chans"]:
+                    continue
+                due = b["now"] >= b["listeners"][c["owner"]]["ncc"]
+                expired = c["nreq"] == 0 and c["la"] + cfg.timeout < b["now"]
+                if not (c["gone"] or c["cwf"] or c["wc"] or (due and expired)):
+                    out.append(("close-without-cause", "step %d: channel %d closed by a poll turn at %d: peer present, no close flag, last_activity %d, channel_timeout %d, %d requests, maintenance %s" % (
+                        step, fd, b["now"], c["la"], cfg.timeout, c["nreq"], "due" if due else "not due"), None))
             # reaping deadline: first poll turn at or after expired_since + cleanup_interval
             for fd, t in list(expired_since.items()):
                 c = b["chans"].get(fd)
@@ -426,7 +463,7 @@ def monitor(cfg, obs):
                             step, fd, t, cfg.timeout, b["now"]), None))
                     else:
                         ca = a["chans"][fd]
-                        kf = "kf_c18_stalled_peer" if (ca["wc"] and ca["pend"] > 0 and not ca["writable"]) else None
+                        kf = "kf_c18_stalled_peer" if (ca["wc"] and not ca["writable"] and not c["writable"]) else None
                         out.append(("reap-stalled", "step %d: channel %d idle and expired since %d, polled at %d >= %d + cleanup_interval: will_close=%s, %d bytes pending, socket not writable, still open" % (
                             step, fd, t, b["now"], t, ca["wc"], ca["pend"]), kf))
         # update the idle bookkeeping from the state after the event
